@@ -1,10 +1,13 @@
 """C09: metadata is fetched lazily, causally and at most once."""
 import vlib
-from props import asynclib as al, solverstream as ss
+from props import asynclib as al, solverstream as ss, enctie
 
-THEOREMS = ["C09_causal_checker", "C09_once_checker", "C09_exact_checker"]
+THEOREMS = ["C09_causal_checker", "C09_once_checker", "C09_exact_checker",
+            "C09_model_once", "C09_model_causal", "C09_model_lazy", "C09_model_exact"]
 CHECKER = ("coqc Props/C09.v + Print Assumptions; harness async_cases --kind c09 (no hints; 1-3 solves per solver; sync and "
-           "yielding runtimes) -> extracted causalb / onceb / exactb on the provider call history")
+           "yielding runtimes) -> extracted causalb / onceb / exactb on the provider call history; harness solve_cases (sync, hook "
+           "log) -> extracted encoder+cache model enc_solve: provider-call sequence equal call for call, encode requests only "
+           "for variables assigned true (req_true_ok)")
 
 
 def run(res, tier, seed, replay):
@@ -17,6 +20,24 @@ def run(res, tier, seed, replay):
                    ("conflict", al.NOHINT & ~128, 150 * k), ("fanout", 80, 60 * k)]
         recs, hangs = al.run_async("c09", streams, seed + 71)
     al.judge(recs, want_exact=True)
+    # the model the C09_model_* theorems are about, against the real call sequence
+    if replay:
+        erecs = []
+    else:
+        estreams = [("small", al.NOHINT, "sync", "debug", 400 * k), ("conflict", al.NOHINT, "sync", "debug", 300 * k),
+                    ("greedy", 17, "sync", "debug", 200 * k), ("small", 255, "sync", "debug", 300 * k),
+                    ("dense", 255, "sync", "release", 150 * k)]
+        erecs, eh = ss.run_streams(estreams, seed + 73, dump=True)
+        hangs += eh
+    enctie.annotate(erecs)
+    for r in erecs:
+        if "enc" not in r:
+            continue
+        res.count([ss.case_key(r["case"]), r["stream"], "enc"], r["enc"].get("n_calls", 0) >= 4)
+        if not enctie.ok(r, ("calls", "req_true")):
+            res.tie_break(f"encoder/cache correspondence no longer checks in {r['stream']}: the provider-call sequence of the "
+                          f"implementation differs from the model's (theorems C09_model_*), or an encode request was made for a "
+                          f"variable that is not assigned true: {r['enc']}", enctie.replay(r))
     n_exact, n_multi = 0, 0
     for r in recs:
         key = ss.case_key(r["case"])
@@ -42,5 +63,5 @@ def run(res, tier, seed, replay):
     res.rule = ("universes without availability hints (classes small/dense/greedy/conflict/fanout), 1-3 solves on one solver "
                 "(same or varied problems), plus 'cancel at poll k, then solve again' for up to 10 poll indices, sync and yielding "
                 "runtimes; non-trivial = run with >= 4 provider requests")
-    res.extra.update({"runs_with_several_solves": n_multi, "exactness_applicable": n_exact, "hangs": len(hangs)})
+    res.extra.update({"runs_with_several_solves": n_multi, "exactness_applicable": n_exact, "hangs": len(hangs)}, **enctie.stats(erecs))
     return res.finish(CHECKER, vlib.TRUSTED_BASE, ["the history is what the harness provider logs (harness/src/universe.rs)"])
